@@ -79,8 +79,9 @@ func ToCatalog(rows []any, ident string, identRight string, joinExpr sqlparser.E
 			if err != nil {
 				return nil, err
 			}
-			buffer.WriteString(fmt.Sprintf("%v", reader))
-			buffer.WriteString("-")
+			// length-prefixed, so that ("a-", "b") and ("a", "-b") are different keys
+			text := fmt.Sprintf("%v", reader)
+			buffer.WriteString(fmt.Sprintf("%d:%s-", len(text), text))
 			mapper[mappedColumns[column]] = reader
 		}
 		hash, err := ToHash(buffer.Bytes())
